@@ -125,11 +125,17 @@ def case_lists_roundtrip(ctx, s: Subject):
     empt = [[n, []] for n, _ in s.ty]
     spec = {"ok": {"index": export.labels(ser.index), "col": {"ty": s.ty, "rows": [empt if r is None else r for r in rows]}}}
     real = call_real(lambda: ser_view(pack_lists(ser.nest.to_lists())))
-    ctx.case("pack_lists∘to_lists", s.desc(), real, None, spec, hyp=s.hyp, features=s.features, nontrivial=s.nontrivial())
+    # the model runs the same composition on the physical input: `packLists (fieldChunks col)` (theorem
+    # C02.list_view_round_trip_physical) — and the specification is computed by the driver as well
+    sj = {"index": export.labels(ser.index), "col": s.phys}
+    ans = ctx.driver.call("relist", series=sj)
+    ctx.case("pack_lists∘to_lists", s.desc(), real, mser(ans["model"]), spec, hyp=s.hyp, features=s.features, nontrivial=s.nontrivial())
+    ctx.case("pack_lists∘to_lists.spec_of_driver", s.desc(), mser(ans["spec"]), None, spec, hyp=s.hyp, features=s.features)
     # element view: list of per-row tables then pack — identical, missing rows included
     spec = {"ok": {"index": export.labels(ser.index), "col": {"ty": s.ty, "rows": rows}}}
     real = call_real(lambda: ser_view(pack_seq(list(ser), index=ser.index, dtype=ser.dtype)))
-    ctx.case("pack_seq∘list", s.desc(), real, None, spec, hyp=s.hyp, features=s.features, nontrivial=s.nontrivial())
+    ans = ctx.driver.call("repackElements", series=sj)      # `packSeq idx ty (iter col)` (C02.element_view_round_trip)
+    ctx.case("pack_seq∘list", s.desc(), real, mser(ans["model"]), spec, hyp=s.hyp, features=s.features, nontrivial=s.nontrivial())
     real = call_real(lambda: ser_view(pack(ser)))
     ctx.case("pack(series)", s.desc(), real, None, spec, hyp=s.hyp, features=s.features, nontrivial=s.nontrivial())
     # exact (Arrow-typed) element types and NaN-vs-null through the list view
